@@ -344,7 +344,7 @@ class PrimaiteGame:
                         raise ValueError(msg)
 
                     # TODO: handle simulation defaults more cleanly
-                    if "service_fix_duration" in defaults_config:
+                    if "service_fix_duration" in defaults_config and "fixing_duration" not in service_cfg.get("options", {}):
                         new_service.config.fixing_duration = defaults_config["service_fix_duration"]
                     if "service_restart_duration" in defaults_config:
                         new_service.restart_duration = defaults_config["service_restart_duration"]
